@@ -1,9 +1,11 @@
 #![allow(dead_code)]
 mod auth;
 mod engine;
+mod itsw;
 mod oracle;
 mod probes;
 mod props;
+mod sys;
 mod world;
 
 use engine::Tier;
